@@ -56,6 +56,7 @@ def schema? (name : String) (pv : Nat) : Option Ty :=
   | "getblocks" => some getBlocksMsg
   | "addr" => some addrMsg
   | "merkleblock" => some merkleBlockMsg
+  | "blockrow" => some blockRow
   | "coinbase" => some coinBase
   | "transferasset" => some transferAsset
   | "producerinfo" => some (producerInfo pv)
